@@ -570,8 +570,28 @@ Fixpoint dollar_pass (fuel : nat) (W : World) (toks : tokens) (log : list str)
            end)
   end.
 
+(** do_command_substitution_for_dollar as it is written: a hand-counted [idx] over ALL tokens (skipped ones are
+    counted), [buff.insert(idx, line)], then [tokens[i].1 = text] for every entry (a HashMap: the keys are
+    distinct, so the iteration order does not matter; modelled in reverse like the other buffers); the early
+    [return] (no first group) leaves the token list untouched.  [dollar_pass] above is the same per token. *)
+Fixpoint dollar_collect (fuel : nat) (W : World) (toks : tokens) (idx : nat) (log : list str)
+  : res (option (list (nat * str)) * list str) :=
+  match toks with
+  | [] => Ok (Some [], log)
+  | (tg, text) :: r =>
+      if tag_eqb tg TSq || tag_eqb tg TBs || negb (should_do_dollar text)
+      then dollar_collect fuel W r (S idx) log
+      else bind (dollar_loop fuel W text log) (fun y =>
+           match fst y with
+           | None => Ok (None, snd y)
+           | Some line => bind (dollar_collect fuel W r (S idx) (snd y)) (fun x =>
+                          Ok (option_map (cons (idx, line)) (fst x), snd x))
+           end)
+  end.
+
 Definition subst_dollar (fuel : nat) (W : World) (toks : tokens) (log : list str) : res (tokens * list str) :=
-  res_map (fun x => (match fst x with Some t => t | None => toks end, snd x)) (dollar_pass fuel W toks log).
+  res_map (fun x => (match fst x with Some b => apply_texts b toks | None => toks end, snd x))
+          (dollar_collect fuel W toks 0 log).
 
 (** src_dot_split: anchored; no-backquote head, backquote, non-empty no-backquote body, backquote, rest of line *)
 Definition not_bq (c : char) : bool := negb (c =? 96).
